@@ -97,14 +97,48 @@ def make_hx(parts=("bus", "flow", "v", "i"), lean=False):
 LAYOUT = [[(0, 1)]]
 
 
+def make_zero_injection(option):
+    """virtual zero-injection measurements (P = 0, Q = 0 with a tiny standard deviation) may only be put on buses whose net power really is
+    zero in both components - otherwise the exact measurements of a converged power flow are no longer reproduced"""
+    def fn(ctx):
+        pc = ctx.load("pandapower.estimation.ppc_conversion")
+        from pandapower.pypower.idx_bus import bus_cols, BUS_TYPE, PD, QD
+        from pandapower.estimation.idx_bus import ZERO_INJ_FLAG, P, Q, P_STD, Q_STD, bus_cols_se
+        nb = 3
+        bus = ctx.obj(np.zeros((nb, bus_cols)))
+        pd_, qd_ = [], []
+        for b in range(nb):
+            bus[b, BUS_TYPE] = 3 if b == 0 else 1
+            pd_.append(ctx.var(f"pd{b}", -5., 5.))
+            qd_.append(ctx.var(f"qd{b}", -5., 5.))
+            bus[b, PD], bus[b, QD] = pd_[b], qd_[b]
+        ppci = {"bus": bus}
+        bus_append = np.full((nb, bus_cols_se), np.nan, dtype=np.float64)
+
+        class Net:
+            _pd2ppc_lookups = {"aux": {}, "bus": np.arange(nb)}
+        out = pc._add_zero_injection(Net, ppci, bus_append, option)
+        for b in range(nb):
+            flagged = bool(out[b, ZERO_INJ_FLAG] == 1)
+            if flagged:
+                ctx.eq(f"flagged_bus_has_zero_active_power/bus{b}", pd_[b], 0.0)
+                ctx.eq(f"flagged_bus_has_zero_reactive_power/bus{b}", qd_[b], 0.0)
+                ctx.true(f"flagged_bus_is_not_the_slack/bus{b}", b != 0)
+                ctx.true(f"virtual_measurement_is_zero/bus{b}", float(out[b, P]) == 0.0 and float(out[b, Q]) == 0.0)
+            else:
+                ctx.true(f"unflagged_bus_gets_no_virtual_measurement/bus{b}", bool(np.isnan(float(out[b, P]))) and bool(np.isnan(float(out[b, Q]))))
+    return fn
+
+
 def instances(tier):
     LAYOUT[0] = [(0, 1)] if tier == "quick" else [(0, 1), (1, 2)]
+    zi = [Inst("zero_injection_zero_pwr_bus", make_zero_injection("zero_pwr_bus"), nvars=10, samples=4, max_paths=500, meta=dict(part="zero injection buses", option="zero_pwr_bus"))]
     if tier == "quick":
-        return [Inst("hx_equals_power_flow_results", make_hx(), nvars=40, samples=2, timeout_ms=120000, max_paths=200, meta=dict(part="h(x)", branches=1))]
+        return zi + [Inst("hx_equals_power_flow_results", make_hx(), nvars=40, samples=2, timeout_ms=120000, max_paths=200, meta=dict(part="h(x)", branches=1))]
     # 2 branches: the same execution, the claims split over four instances so that they are decided in parallel
     # (the current-magnitude claims square a square root of a large rational function: with all shunt parameters symbolic the canonical
     # forms for 2 branches do not finish within the budget - there the bus shunts and the asymmetric branch shunts are concrete zeros)
-    return [Inst(f"hx_equals_power_flow_results_{p}", make_hx((p,), lean=(p == "i")), nvars=40, samples=2, timeout_ms=120000, max_paths=200,
+    return zi + [Inst(f"hx_equals_power_flow_results_{p}", make_hx((p,), lean=(p == "i")), nvars=40, samples=2, timeout_ms=120000, max_paths=200,
                  meta=dict(part="h(x)", branches=2, claims=p, shunts="concrete zero" if p == "i" else "symbolic"))
             for p in ("bus", "flow", "v", "i")]
 
